@@ -273,7 +273,7 @@ int SimulateTms9900::run(int max_cycles, int step)
   while (stop_running == false)
   {
     pc_current = pc;
-    opcode = (READ_RAM(pc_current) << 8) | READ_RAM(pc_current);
+    opcode = (READ_RAM(pc_current) << 8) | READ_RAM(pc_current + 1);
     //c = get_cycle_count(opcode);
     //if (c > 0) cycle_count += c;
     pc += 2;
